@@ -858,6 +858,26 @@ func (sc *siteCollector) impl(ib *hs.ImplBlock) {
 			})
 		}
 	}
+	// a correctly written method of the template that belongs to a capability the block did NOT
+	// select ("all required methods and no more")
+	implemented := map[string]bool{}
+	for _, m := range ib.Methods {
+		implemented[m.Name] = true
+	}
+	self := hs.Param{Name: "self", Single: ib.Singleton}
+	for _, other := range []*hs.Func{
+		{Name: "dim", Params: []hs.Param{self, hs.P("percent", hs.TInt)}, Ret: hs.TBool, Body: hs.Blk(hs.B(true))},
+		{Name: "set_temp", Params: []hs.Param{self, hs.P("celsius", hs.TFloat)}, Body: hs.Blk(nil)},
+		{Name: "label", Params: []hs.Param{self}, Ret: hs.TStr, Body: hs.Blk(hs.S("l"))},
+		{Name: "read", Params: []hs.Param{self, hs.P("channel", hs.TInt), hs.P("unit", hs.TStr)}, Ret: hs.TFloat, Body: hs.Blk(hs.F(0.5))},
+		{Name: "record", Params: []hs.Param{self, hs.P("values", hs.TList(hs.TInt))}, Body: hs.Blk(nil)},
+	} {
+		other := other
+		if implemented[other.Name] {
+			continue
+		}
+		sc.add(reftype.RImpl, "impl-method-of-unselected-capability", nil, []string{"method:" + other.Name}, func() { ib.Methods = append(ib.Methods, other) })
+	}
 	for i, m := range ib.Methods {
 		i, m := i, m
 		sc.add(reftype.RImpl, "impl-method-renamed", nil, nil, func() { m.Name = "zz_" + m.Name })
